@@ -23,31 +23,52 @@ macro_rules! t {
     ($e:expr) => {{ unsafe { TICK += 1; } $e }};
 }
 
-#[inline(never)]
-fn f2(a: i64) -> i64 {
-    let b = t!(a + 1);
-    return t!(b * 2);
+trait Shape {
+    fn area(&self) -> i64;
+}
+struct Sq(i64);
+struct Rc2(i64, i64);
+impl Shape for Sq {
+    #[inline(never)]
+    fn area(&self) -> i64 {
+        let a = t!(self.0);
+        return t!(a * a);
+    }
+}
+impl Shape for Rc2 {
+    #[inline(never)]
+    fn area(&self) -> i64 {
+        let a = t!(self.0);
+        return t!(a * self.1);
+    }
 }
 
 #[inline(never)]
-fn f1(d: i64) -> i64 {
-    let mut acc = t!(d);
-    if t!(d > 0) {
-        acc = t!(f1(d - 1));
-    }
-    let r = t!(f2(acc));
-    return t!(acc + r);
+fn pick<T: Copy>(x: T, y: T, first: bool) -> T {
+    let r = t!(if first { x } else { y });
+    return t!(r);
+}
+
+#[inline(never)]
+fn apply(f: &dyn Fn(i64) -> i64, v: i64) -> i64 {
+    let r = t!(f(v));
+    return t!(r + 1);
 }
 
 fn main() {
-    let mut s = t!(0);
-    let mut i = t!(0);
-    while t!(i < 3) {
-        s = t!(s + f1(i));
-        i = t!(i + 1);
-    }
+    let k = t!(5);
+    let add = |a: i64| -> i64 {
+        let b = t!(a + k);
+        return t!(b);
+    };
+    let p = t!(pick(3i64, 4i64, true));
+    let q = t!(pick(7u8, 9u8, false));
+    let s1 = t!(Sq(p).area());
+    let s2 = t!(Rc2(p, q as i64).area());
+    let c = t!(apply(&add, s1));
+    let d = t!(add(s2));
     t!();
-    report(s);
+    report(c + d);
 }
 
 #[inline(never)]
@@ -68,5 +89,5 @@ fn gate2() {
 fn report(s: i64) {
     gate2();
     println!("TICK={} S={}", unsafe { TICK }, s);
-    std::process::exit((s % 100) as i32);
+    std::process::exit((s.rem_euclid(100)) as i32);
 }
